@@ -227,6 +227,12 @@ var directedNamePool = func() []string {
 	for _, n := range []string{"answer", "a", "x1", "1", "1337", "2factor_x", "contact_tel", "flow_contact", "step_value", "extra_flow", "parent_contact", "contactname", "contact_name", "contact_uuid"} {
 		add(n)
 	}
+	// names that begin with, end in or contain a keyword of the new syntax (the key of a result called "True or False")
+	for _, kw := range []string{"true", "false", "null"} {
+		for _, n := range []string{kw + "able", kw + "_or_" + kw, kw + "_alarm", kw + "ness", kw + "s", kw + "1", "is_" + kw, "un" + kw, kw + "_", kw + kw} {
+			add(n)
+		}
+	}
 	return out
 }()
 
